@@ -17,7 +17,7 @@ Fragment (anything else raises TranslateError => "tie broken"):
           `self.<translated method>()`
   stmts:  `name = e`, `return e`, `return e1, e2`, `if a == b: return e`,
           `if <cmp> [or <cmp>]: raise ValueError(..)`, `if x is None: x = e`,
-          `self.attr = e`
+          `x = operator.index(x)` (identity on ints), `self.attr = e`
 The numpy idioms are mapped to the list functions of `PyPhysim.Model.C02`
 (`npArange`, `npR`, `fftshift`, `pySlice`, `ceilDivInt`).
 """
@@ -215,6 +215,15 @@ def emit_guard(cls_tree):
         if isinstance(s, ast.Assign) and len(s.targets) == 1 and isinstance(s.targets[0], ast.Name) \
                 and isinstance(s.value, ast.Constant) and isinstance(s.value.value, str):
             continue                                    # msg = "..."
+        # `name = operator.index(name)`: the identity on the ints the fragment is about (coercion of numpy integer
+        # scalars to python ints; anything that is not an integer raises TypeError before any guard)
+        if (isinstance(s, ast.Assign) and len(s.targets) == 1 and isinstance(s.targets[0], ast.Name)
+                and isinstance(s.value, ast.Call) and isinstance(s.value.func, ast.Attribute)
+                and s.value.func.attr == 'index' and isinstance(s.value.func.value, ast.Name)
+                and s.value.func.value.id == 'operator' and len(s.value.args) == 1 and not s.value.keywords
+                and isinstance(s.value.args[0], ast.Name) and s.value.args[0].id == s.targets[0].id
+                and s.targets[0].id in tr.env and tr.env[s.targets[0].id][1] == 'int' and not assigned):
+            continue
         if isinstance(s, ast.If) and not s.orelse:
             t = s.test
             if (isinstance(t, ast.Compare) and isinstance(t.left, ast.Name) and t.left.id == opt
